@@ -55,12 +55,14 @@ fn thread_blocker(e: &'static Engine, k: usize, first_timeout: bool) {
 }
 
 /// coroutine C parks `k` times through coroutine::park / park_timeout; unpark i comes after park i-1 returned
-fn co_park(e: &'static Engine, workers: usize, k: usize, timeout_ms: u64, co_unparker: bool) {
+fn co_park(e: &'static Engine, workers: usize, k: usize, timeout_ms: u64, co_unparker: bool, parked_first: bool) {
     rt_init(workers);
     e.begin();
     let c = go!(move || {
         for i in 0..k {
             let t0 = may::verif::now();
+            // announce the park: with `parked_first` the unparker only starts once the parker is on its way in
+            READY.store(true, Ordering::SeqCst);
             if timeout_ms == 0 {
                 coroutine::park();
             } else {
@@ -71,6 +73,9 @@ fn co_park(e: &'static Engine, workers: usize, k: usize, timeout_ms: u64, co_unp
         }
     });
     let target = c.coroutine().clone();
+    if parked_first {
+        e.wait_flag(&READY);
+    }
     if co_unparker {
         // the first unpark comes from another coroutine
         let t = target.clone();
@@ -195,15 +200,17 @@ pub fn build(quick: bool) -> Vec<Scenario> {
     // coroutine::park / park_timeout
     for w in [1usize, 2] {
         for k in [1usize, 2] {
-            v.push(sc(format!("co.park.k{}.w{}", k, w), move |e| co_park(e, w, k, 0, false)).bound(d).deepen(dmax, budget));
+            v.push(sc(format!("co.park.k{}.w{}", k, w), move |e| co_park(e, w, k, 0, false, false)).bound(d).deepen(dmax, budget));
         }
-        v.push(sc(format!("co.park.k2.w{}.co_unparker", w), move |e| co_park(e, w, 2, 0, true)).bound(d).deepen(dmax, budget));
-        v.push(sc(format!("co.park_timeout10.k2.w{}", w), move |e| co_park(e, w, 2, 10, false)).t2().bound(d).deepen(dmax, budget));
+        v.push(sc(format!("co.park.k2.w{}.parked_first", w), move |e| co_park(e, w, 2, 0, false, true)).bound(d).deepen(dmax, budget));
+        v.push(sc(format!("co.park.k3.w{}.parked_first", w), move |e| co_park(e, w, 3, 0, false, true)).bound(d).deepen(dmax, budget));
+        v.push(sc(format!("co.park.k2.w{}.co_unparker", w), move |e| co_park(e, w, 2, 0, true, false)).bound(d).deepen(dmax, budget));
+        v.push(sc(format!("co.park_timeout10.k2.w{}", w), move |e| co_park(e, w, 2, 10, false, false)).t2().bound(d).deepen(dmax, budget));
     }
     if !quick {
-        v.push(sc("co.park.k3.w2".into(), move |e| co_park(e, 2, 3, 0, false)).bound(2).deepen(3, budget));
-        v.push(sc("co.park.k2.w1.fine".into(), move |e| co_park(e, 1, 2, 0, false)).fine().bound(2));
-        v.push(sc("co.park.k2.w2.desc".into(), move |e| co_park(e, 2, 2, 0, false)).desc().bound(2).deepen(3, budget));
+        v.push(sc("co.park.k3.w2".into(), move |e| co_park(e, 2, 3, 0, false, false)).bound(2).deepen(3, budget));
+        v.push(sc("co.park.k2.w1.fine".into(), move |e| co_park(e, 1, 2, 0, false, false)).fine().bound(2));
+        v.push(sc("co.park.k2.w2.desc".into(), move |e| co_park(e, 2, 2, 0, false, false)).desc().bound(2).deepen(3, budget));
     }
     // fresh Blocker
     for w in [1usize, 2] {
